@@ -249,11 +249,12 @@ def get_mvdr_vector(atf_vector, noise_psd_matrix):
     try:
         numerator = solve(noise_psd_matrix, atf_vector[..., None])[..., 0]
     except np.linalg.LinAlgError:
-        bins = noise_psd_matrix.shape[0]
         numerator = np.empty_like(atf_vector)
-        for f in range(bins):
-            numerator[f], *_ = np.linalg.lstsq(noise_psd_matrix[f],
-                                               atf_vector[..., f, :])
+        noise_psd_matrix = np.broadcast_to(
+            noise_psd_matrix, (*atf_vector.shape, atf_vector.shape[-1]))
+        for index in np.ndindex(*atf_vector.shape[:-1]):
+            numerator[index], *_ = np.linalg.lstsq(noise_psd_matrix[index],
+                                                   atf_vector[index])
     denominator = np.einsum('...d,...d->...', atf_vector.conj(), numerator)
     beamforming_vector = numerator / np.expand_dims(denominator, axis=-1)
 
